@@ -6,12 +6,14 @@ from lib import driver
 from lib.rec import Rec
 
 LEVEL = "exploration"
-RULE = ("G5 trees (local and server) with random attribute data written by the harness straight into the sidecar files (own writer, path "
-        "from the configuration's get_data_json_path) x G4 searches x every subset of a 3-key attribute pool x six sid_encode functions "
-        "(str, uri, None, fields dict, keytype - not injective -, version - sometimes None). list(GetFromPaths(c).get(...)) is aligned one-to-one, in order, with list(FindInPaths(c).find(s)); record content "
-        "is compared with the sidecar content; GetFromAll is compared with GetFromPaths on types that have a configured Getter and must yield "
-        "nothing (without failing) for types configured without one; get_one / get_data / get_attr are compared with the records. "
-        "Non-trivial = distinct (universe, search, attributes, encoder) with at least one record.")
+RULE = ('G5 trees (local and server) with random attribute data written by the harness straight into the sidecar files (own writer, path from '
+        "the configuration's get_data_json_path) x G4 searches x every subset of a 3-key attribute pool x six sid_encode functions (str, uri, "
+        'None, fields dict, keytype - not injective -, version - sometimes None). list(GetFromPaths(c).get(...)) is aligned one-to-one, in '
+        'order, with list(FindInPaths(c).find(s)); record content is compared with the sidecar content; GetFromAll is compared with GetFromPaths '
+        'on types that have a configured Getter and must yield nothing (without failing) for types configured without one; get_one / get_data / '
+        "get_attr (of GetFromPaths, GetFromAll and the Sid itself; attribute names include 'last.user') are compared with the records; every "
+        "second shard starts with a Getter call that names another configuration; or-lists with overlapping alternatives ('*,<project>/*/*') are "
+        'asked at depths 2-5. Non-trivial = distinct (universe, search, attributes, encoder) with at least one record.')
 ASSUME = ["the sidecar location comes from the live configuration (get_data_json_path); entities whose sidecar files coincide share their data",
           "GetFromAll vs GetFromPaths is compared for searches without '>'"]
 BUDGET = {"quick": (96, 30), "thorough": (6400, 40)}
